@@ -805,19 +805,20 @@ def rule_r7(ctx) -> List[R.Inst]:
         sl = byname
     # which lines are note lines: '#' followed by a decimal digit (measures 000..999) — all ten digits
     DIG = set(range(48, 58))
-    tests = []
-    for n in ast.walk(rd.node):
-        if isinstance(n, ast.If) and any(isinstance(x, ast.Call) and call_name(x) == "split" and x.args and isinstance(x.args[0], ast.Constant) and
-                                         x.args[0].value in (b":", ":") for x in ast.walk(n)):
-            tests.append(n)
+    # (the test on the character after '#': as the condition of the note branch, or negated as a guard clause before it)
+    def _char1(e):
+        return isinstance(e, ast.Subscript) and isinstance(e.slice, ast.Constant) and e.slice.value == 1
     digit_test = None
-    for n in tests:
+    for n in ast.walk(rd.node):
+        if not isinstance(n, ast.If):
+            continue
         for c in ast.walk(n.test):
-            if isinstance(c, ast.Compare) and len(c.ops) == 2 and all(isinstance(o, (ast.LtE, ast.Lt)) for o in c.ops):
+            if isinstance(c, ast.Compare) and len(c.ops) == 2 and all(isinstance(o, (ast.LtE, ast.Lt)) for o in c.ops) and _char1(c.comparators[0]):
                 digit_test = ("range", c)
-            elif isinstance(c, ast.Compare) and len(c.ops) == 1 and isinstance(c.ops[0], ast.In):
+            elif isinstance(c, ast.Compare) and len(c.ops) == 1 and isinstance(c.ops[0], ast.In) and _char1(c.left):
                 digit_test = ("in", c)
-            elif isinstance(c, ast.Call) and call_name(c) == "isdigit":
+            elif isinstance(c, ast.Call) and call_name(c) == "isdigit" and isinstance(c.func, ast.Attribute) and \
+                    (_char1(c.func.value) or (isinstance(c.func.value, ast.Subscript) and isinstance(c.func.value.slice, ast.Slice))):
                 digit_test = ("isdigit", c)
     if digit_test is None:
         insts.append(R.undec(rid, "note-line-test", file_r, rd.node.lineno, "test that tells note lines from header lines not found"))
